@@ -6,6 +6,7 @@
 package main
 
 import (
+	"encoding/json"
 	"fmt"
 	"os"
 	"sort"
@@ -26,6 +27,8 @@ type op struct {
 	Id   string   `json:"id"`
 	Deps []string `json:"deleteWith,omitempty"`
 	Ttl  bool     `json:"ttl,omitempty"`
+	// ViaJS: the fact is written by a script (Env.AddFact), as a rule action would do it
+	ViaJS bool `json:"via_js,omitempty"`
 }
 
 type world struct {
@@ -71,7 +74,13 @@ func (w *world) apply(r *rep.Report, o op) bool {
 			if o.Ttl {
 				f["ttl"] = 1.0
 			}
-			_, err = w.loc.AddFact(ctx, o.Id, core.Map(ref.CloneMap(f)))
+			if o.ViaJS {
+				fj, _ := json.Marshal(f)
+				idj, _ := json.Marshal(o.Id)
+				_, err = w.loc.RunJavascript(ctx, "Env.AddFact("+string(idj)+", "+string(fj)+")", nil, nil, nil)
+			} else {
+				_, err = w.loc.AddFact(ctx, o.Id, core.Map(ref.CloneMap(f)))
+			}
 			if err == nil {
 				delete(f, "ttl")
 				w.m.Put(o.Id, f)
@@ -240,6 +249,9 @@ func genGraph(g *gen.Gen, ids []string, allowTtl bool) []op {
 					o.Deps = append(o.Deps, ids[g.Intn(n)])
 				}
 			}
+		}
+		if o.Op == "addFact" && !allowTtl && g.Intn(4) == 0 {
+			o.ViaJS = true
 		}
 		ops = append(ops, o)
 		if g.Intn(6) == 0 {
